@@ -73,6 +73,12 @@ def enabledUpd (f : Nat → Bool) : Ev → Nat → Bool
 
 def enabledOf (tr : List Ev) : Nat → Bool := tr.foldl enabledUpd (fun _ => false)
 
+/-- The histories the property quantifies over ("every sequence of Enable/Disable + ManageModules calls
+    between Start and Shutdown"): once Shutdown has been called, neither Start nor ManageModules is called
+    again. (The code does not refuse such calls; see the model.) -/
+def ShutdownFinal (tr : List Ev) : Prop :=
+  ∀ t1 t2, tr = t1 ++ Ev.call .shutdown :: t2 → Ev.call .start ∉ t2 ∧ Ev.call .manage ∉ t2
+
 /-- `m` is a (transitive) dependency of `a`. -/
 inductive TransDep (deps : Nat → List Nat) : Nat → Nat → Prop
   | direct {a d : Nat} : d ∈ deps a → TransDep deps a d
